@@ -370,7 +370,9 @@ def oracleCovered : List String :=
    "LPDNet._forward_operator", "LPDNet._backward_operator", "MRIModelEngine._forward_operator",
    "MRIModelEngine._backward_operator", "RecurrentVarNetBlock.forward", "MRILogLikelihood.forward",
    "EndToEndVarNetBlock.forward", "MRIVarSplitNet.forward", "VSharpNet.forward", "VSharpNet3D.forward",
-   "VSharpNetEngine.forward_function", "VSharpNet3DEngine.forward_function"]
+   "VSharpNetEngine.forward_function", "VSharpNet3DEngine.forward_function", "ConjGrad.B_op", "ConjGrad.cg",
+   "CrossDomainNetwork.kspace_correction", "CrossDomainNetwork.image_correction", "CrossDomainNetwork.forward",
+   "IterDualNet.forward", "LPDNet.forward"]
 
 def structuralOnly : List String :=
   ["SSLMRIModelEngine._do_iteration", "JSSLMRIModelEngine._do_iteration", "VSharpNetSSLEngine._do_iteration",
